@@ -307,7 +307,7 @@ def m_apply(st, s):
         return m_concat(st, st_copy((s["w2"], s["f2"])), 1 if op == "add" else -1)
     if op == "permute":
         return w, [f[k] for k in s["order"]]
-    if op in ("copy", "setlay"):
+    if op in ("copy", "setlay", "update_rej"):          # update_rej: a REJECTED update(modes, data) — the receiver must stay as it was
         return st
     if op == "vec":
         return (w if s["incl"] else [Fr(1)] * len(w)), f
@@ -320,9 +320,9 @@ def m_apply(st, s):
 # generator
 # ----------------------------------------------------------------------------------------------------------------
 NEWOBJ = ("neg", "mul", "add", "sub", "extract", "permute", "copy", "vec")          # return a new object
-INPLACE = ("normalize", "arrange", "arrange_perm", "redistribute", "fixsigns", "update", "setlay")
+INPLACE = ("normalize", "arrange", "arrange_perm", "redistribute", "fixsigns", "update", "update_rej", "setlay")
 ALPHA = ["normalize", "normalize_abs", "normalize_mode", "arrange", "arrange_perm", "redistribute", "fixsigns", "neg", "mul",
-         "add", "sub", "extract", "permute", "copy", "vec", "update", "setlay"]
+         "add", "sub", "extract", "permute", "copy", "vec", "update", "update_rej", "setlay"]
 TERMINAL = ["tolist", "tolist_mode", "symmetrize", "score", "fixsigns_other"]
 # memory layouts of a factor matrix the user (or an earlier operation) left in K.factor_matrices[n]:
 #   F  F-contiguous (what the constructor stores)        C  C-contiguous                 M  the result of `A @ eye(R)` — how
@@ -413,6 +413,12 @@ def rand_step(rng, c08, name, shape, R):
         modes = sorted(rng.sample(allm, rng.randint(1, len(allm))))
         n = sum((R if k == -1 else shape[k] * R) for k in modes)
         return {"op": "update", "modes": modes, "data": [rng.randint(-4, 4) for _ in range(n)]}
+    if name == "update_rej":               # (wave 5, /repo b9311d6) a request pass 1 of update refuses; the offending block comes last where possible
+        for _ in range(20):
+            rq = c08.gen_update_req(rng, list(shape), R, rng.choice(["bad_later_mode", "short_later", "repeat", "negative", "descending", "short_first"]))
+            if rq is not None and not c08.update_req_accepted(list(shape), R, rq[0], rq[1]):
+                return {"op": "update_rej", "modes": rq[0], "data": rq[1]}
+        return {"op": "update_rej", "modes": [N], "data": []}
     if name == "setlay":
         return {"op": "setlay", "n": rng.randrange(N), "lay": rng.choice(LAYS)}
     if name == "tolist":
@@ -657,6 +663,14 @@ def run_hist(c):
                 K.fixsigns()
             elif op == "update":
                 K.update(np.array(s["modes"]), np.array(s["data"], dtype=float))
+            elif op == "update_rej":
+                before = tgen.obs_ktensor(np, K)
+                try:
+                    K.update(np.array(s["modes"], dtype=int), np.array(s["data"], dtype=float))
+                    o["accepted"] = True
+                except AssertionError as ex:
+                    o["rejected"] = str(ex)[:60]
+                o["same"] = bool(before == tgen.obs_ktensor(np, K))          # raw stored numbers before / after, exactly
             elif op == "setlay":
                 K.factor_matrices[s["n"]] = as_layout(np, np.array(K.factor_matrices[s["n"]]), s["lay"])
             elif op == "neg":
@@ -819,6 +833,9 @@ def coq_hist(c, o):
         elif op == "setlay":
             nxt = P
             checks.append(f"qk_close {P} O")
+        elif op == "update_rej":            # rejected: the receiver is EXACTLY the state before (theorem C08_update_rejected_unchanged)
+            nxt = P
+            checks.append(f"qk_close {P} O" if ("rejected" in ob and ob.get("same")) else "false")
         elif op == "update":
             ms = "[" + "; ".join("None" if m == -1 else f"Some {m}%nat" for m in s["modes"]) + "]"
             nxt = f"qk_update {ms} {gqvec(s['data'])} {P}"
@@ -938,6 +955,11 @@ def oracle_hist(c, o, den, close):
                 return f"step {k}: from_vector(tovec(K)) differs from K"
         elif op == "update":
             pass
+        elif op == "update_rej":
+            if "rejected" not in ob:
+                return f"step {k}: update({s['modes']}, {len(s['data'])} numbers) was accepted against the documented contract"
+            if res["weights"] != prev["weights"] or res["factors"] != prev["factors"]:
+                return f"step {k}: rejected update ({ob['rejected']}) left a modified receiver"
         elif op == "symmetrize":
             if any(A != res["factors"][0] for A in res["factors"]):
                 return f"step {k}: symmetrize result has different factors"
